@@ -126,7 +126,9 @@ def main(tier, seed):
         sets = [[]] + [[m] for m in singles]
         if tier == "thorough":
             sets += [list(c) for c in itertools.combinations(singles, 2)]
-        hopts = [None] + (recorded_root_formats(tree) if tier == "thorough" else [])
+        # an explicit -h FORMAT: every recorded format (quick: on the bases whose root history recorded two formats)
+        hopts = [None] + (recorded_root_formats(tree) if tier == "thorough" or name in ("subdirs-2formats-1gen", "two-gens-different-formats")
+                          else [])
         for ms in sets:
             t = tree
             try:
@@ -146,7 +148,7 @@ def main(tier, seed):
                     continue
                 cases.append({"name": name, "base": tree, "muts": ms, "has_dirhashes": has, "h": h})
                 if h is None and len(ms) <= 1:   # the root folder as a user may spell it: trailing separator, /., '.' from inside, ./name
-                    for sp in ("slash", "slashdot", "dot", "rel"):
+                    for sp in ("slash", "slashdot", "dot", "rel", "symlink"):
                         cases.append({"name": name, "base": tree, "muts": ms, "has_dirhashes": has, "h": h, "spell": sp})
     res = eng.pmap(work, cases)
     for case, vs in zip(cases, res):
